@@ -54,7 +54,11 @@ impl GraphStore for GraphEngine {
 
     fn snapshot(&self) -> Self::Snapshot {
         let i2e = Arc::new(self.scan_i2e_records());
+        #[cfg(nervusdb_verif)]
+        crate::verif_hooks::sched("snapshot.after_i2e");
         let inner = self.begin_read();
+        #[cfg(nervusdb_verif)]
+        crate::verif_hooks::sched("snapshot.after_begin_read");
         let tombstoned_nodes: HashSet<InternalNodeId> = collect_tombstoned_nodes(inner.runs());
         StorageSnapshot {
             inner,
